@@ -592,7 +592,9 @@ def run(chk) -> None:
     from checks import c01e
 
     why = c01e.mapping_list_fact(chk)
-    if why is not None:
+    if why is not None and why.startswith("the input classes do not reach"):
+        chk.error("mapping-list-fact", "-", f"part of Mapping2D3D.all_dot_brackets is reached by no input class, what it does to the list is not decided: {why[:200]}")
+    elif why is not None:
         chk.ok("mapping-list-fact", "-", f"Mapping2D3D.all_dot_brackets not evaluable ({why[:120]}); its row layout is C06's strand-rows")
     if c12.foreign_mutations(chk, "list-handed-out", ("all_dot_brackets",)) == 0:
         chk.ok("list-handed-out", "package", "no consumer of BpSeq.all_dot_brackets changes the cached list in place")
